@@ -28,7 +28,10 @@ Env == <<
   [n |-> "R3",  kind |-> "type", ty |-> Obj(<<Prop("a", Uni(<<Ref("P3"), Ref("D3")>>), FALSE)>>, <<>>)],
   [n |-> "D3",  kind |-> "type", ty |-> Obj(<<Prop("z", TNull, FALSE)>>, <<>>)],
   \* a recursive tuple without a base case (uninhabited, but not literally never)
-  [n |-> "LL",  kind |-> "type", ty |-> Tup(<<TNumber, Ref("LL")>>, <<>>)]
+  [n |-> "LL",  kind |-> "type", ty |-> Tup(<<TNumber, Ref("LL")>>, <<>>)],
+  \* named tuples of different lengths whose intersection is inhabited (named types get their atoms when first referenced)
+  [n |-> "Tp",  kind |-> "type", ty |-> Tup(<<TString, TNumber>>, <<>>)],
+  [n |-> "Tq",  kind |-> "type", ty |-> Tup(<<TString>>, <<TNumber>>)]
 >>
 
 Leaves == <<TNull, TBoolean, LB(TRUE), TNumber, LN("1"), LN("2"), TString, LS("a"), LS("b")>>
@@ -59,6 +62,18 @@ Depth1 ==
         O(<<Prop("l", Ref("LL"), FALSE)>>), Tup(<<Tup(<<Ref("LL")>>, <<>>)>>, <<>>),
         O(<<Prop("f", Uni(<<Ref("P3"), Ref("D3")>>), FALSE), Prop("g", Ref("Q3"), FALSE)>>),
         O(<<Prop("f", Ref("Q3"), FALSE), Prop("g", Uni(<<Ref("P3"), Ref("D3")>>), FALSE)>>)}
+  \* two positive list atoms in one conjunction (the prefix of one is longer than the other's, whose rest covers it), both orders
+  \cup {Inter(<<Tup(<<TString, TNumber>>, <<>>), Tup(<<TString>>, <<TNumber>>)>>), Inter(<<Tup(<<TString>>, <<TNumber>>), Tup(<<TString, TNumber>>, <<>>)>>),
+        Inter(<<Tup(<<TString>>, <<TNumber>>), Tup(<<TString, TNumber>>, <<TNumber>>)>>),
+        \* (tuple shapes that occur nowhere else: the engine numbers atoms in the order it first meets them, and a conjunction
+        \* lists them in that order - here the longer tuple is met first in one type and second in the other)
+        Inter(<<Ref("Tp"), Ref("Tq")>>), Inter(<<Ref("Tq"), Ref("Tp")>>),
+        Inter(<<Tup(<<TBoolean, TNumber>>, <<>>), Tup(<<TBoolean>>, <<TNumber>>)>>),
+        Inter(<<Tup(<<LB(TRUE)>>, <<TString>>), Tup(<<LB(TRUE), TString>>, <<>>)>>)}
+  \* an index signature whose value is a union, against the union of the index signatures (different keys may take different members)
+  \cup {Obj(<<>>, <<Ix(TString, Uni(<<TString, TNumber>>))>>),
+        Uni(<<Obj(<<>>, <<Ix(TString, TString)>>), Obj(<<>>, <<Ix(TString, TNumber)>>)>>),
+        Uni(<<Obj(<<Prop("a", TString, TRUE)>>, <<Ix(TString, TString)>>), Obj(<<>>, <<Ix(TString, TNumber)>>)>>)}
   \* tuples and arrays whose rest / element is unknown
   \cup {Tup(<<TString>>, <<Prim("unknown")>>), Tup(<<TString, TNumber>>, <<Prim("unknown")>>), Arr(Prim("unknown")),
         Uni(<<Tup(<<TString>>, <<Prim("unknown")>>), TNull>>)}
